@@ -148,6 +148,66 @@ def Stack.counters {S A O : Type} : Stack S0 A0 O0 R S A O → S → List Nat
 
 end
 
+/-! ### declared spaces of a wrapper stack
+
+  Spaces are membership predicates.  An observation wrapper *declares* a new observation space
+  (`ClipObservation`: the inner box; `RescaleObservation`: `Box(min, max)`; `FlattenObservation`: the flat
+  box; `TransformObservation`: the space it is given); an action wrapper declares a new action space and
+  passes the observation space of the environment it wraps (`self.env.observation_space`) through;
+  `Identity`, `TimeLimit` and the reward wrappers pass both through. -/
+
+inductive SpacedStack (S0 A0 O0 R : Type) : Type → Type → Type → Type 1 where
+  | base : SpacedStack S0 A0 O0 R S0 A0 O0
+  | identity {S A O : Type} : SpacedStack S0 A0 O0 R S A O → SpacedStack S0 A0 O0 R S A O
+  | timeLimit {S A O : Type} (n : Nat) : SpacedStack S0 A0 O0 R S A O → SpacedStack S0 A0 O0 R (S × Nat) A O
+  | mapAction {S A O A' : Type} (f : A' → A) (actP : A' → Prop) :
+      SpacedStack S0 A0 O0 R S A O → SpacedStack S0 A0 O0 R S A' O
+  | mapObs {S A O O' : Type} (g : O → O') (obsP : O' → Prop) :
+      SpacedStack S0 A0 O0 R S A O → SpacedStack S0 A0 O0 R S A O'
+  | mapReward {S A O : Type} (h : R → R) : SpacedStack S0 A0 O0 R S A O → SpacedStack S0 A0 O0 R S A O
+
+section
+variable {S0 A0 O0 R K : Type} [Keys K]
+
+def SpacedStack.toStack {S A O : Type} : SpacedStack S0 A0 O0 R S A O → Stack S0 A0 O0 R S A O
+  | .base => .base
+  | .identity st => .identity st.toStack
+  | .timeLimit n st => .timeLimit n st.toStack
+  | .mapAction f _ st => .mapAction f st.toStack
+  | .mapObs g _ st => .mapObs g st.toStack
+  | .mapReward h st => .mapReward h st.toStack
+
+/-- the observation space the stack advertises, given the base environment's -/
+def SpacedStack.obsSpace {S A O : Type} (baseObs : O0 → Prop) : SpacedStack S0 A0 O0 R S A O → (O → Prop)
+  | .base => baseObs
+  | .identity st => st.obsSpace baseObs
+  | .timeLimit _ st => st.obsSpace baseObs
+  | .mapAction _ _ st => st.obsSpace baseObs        -- `self.env.observation_space`
+  | .mapObs _ obsP _ => obsP
+  | .mapReward _ st => st.obsSpace baseObs
+
+/-- the action space the stack advertises -/
+def SpacedStack.actSpace {S A O : Type} (baseAct : A0 → Prop) : SpacedStack S0 A0 O0 R S A O → (A → Prop)
+  | .base => baseAct
+  | .identity st => st.actSpace baseAct
+  | .timeLimit _ st => st.actSpace baseAct
+  | .mapAction _ actP _ => actP
+  | .mapObs _ _ st => st.actSpace baseAct
+  | .mapReward _ st => st.actSpace baseAct
+
+/-- every observation layer maps the space declared below it into the space it declares, every action
+    layer maps the space it declares into the space declared below it -/
+def SpacedStack.Sound {S A O : Type} (baseObs : O0 → Prop) (baseAct : A0 → Prop) :
+    SpacedStack S0 A0 O0 R S A O → Prop
+  | .base => True
+  | .identity st => st.Sound baseObs baseAct
+  | .timeLimit _ st => st.Sound baseObs baseAct
+  | .mapAction f actP st => (∀ a, actP a → st.actSpace baseAct (f a)) ∧ st.Sound baseObs baseAct
+  | .mapObs g obsP st => (∀ o, st.obsSpace baseObs o → obsP (g o)) ∧ st.Sound baseObs baseAct
+  | .mapReward _ st => st.Sound baseObs baseAct
+
+end
+
 /-! ### executable form of the step contract (Φ for C01), on recorded components -/
 
 /-- What the functional API says about one transition, as recorded by the harness:
